@@ -221,12 +221,52 @@ def rule_r6(ctx):
         ctx.fail(r, f, "reflector not reduced to one forwarder", f.line, "the s1 == s2 edge can reach the path set-up with two paths")
 
 
+# ---------------------------------------------------------------------------
+# R8: the hop limit is applied to requests, never to replies on their way back
+
+
+def rule_r8(ctx):
+    from .c12 import walk_global
+    r = ctx.rule("C13.R8", "T10", "the hop limit is applied where a request (or survey) arrives, never to a reply on its way back: the "
+                 "ttl field of the raw requester-side sockets (xreq0_sock, xsurv0_sock), which exists for the option's sake, is "
+                 "accessed only by the option functions and the socket initialiser -- a reply at device j carries one "
+                 "backtrace entry more than the request that device admitted, so a return path that counts hops against the "
+                 "same limit throws away the replies to exactly those requests that were admitted at the limit", floor=4)
+    prog = ctx.prog
+    setget = set()
+    for g in prog.globals:
+        if "option" in (g.get("type") or "") or "option" in (g.get("name") or ""):
+            for m in walk_global(g):
+                if m.get("k") == "fnref":
+                    setget.add(m["n"])
+    n = 0
+    for f in prog.functions:
+        if f.cfg_failed:
+            continue
+        seen = set()
+        for s_ in f.sites():
+            for m in walk(s_.node):
+                if m.get("k") == "mem" and m.get("rec") in ("xreq0_sock", "xsurv0_sock") and m["f"] == "ttl" and s_.line not in seen:
+                    seen.add(s_.line)
+                    n += 1
+                    if f.name in setget or f.name.endswith(("_sock_init", "_sock_fini")):
+                        r.ob(f, "%s.ttl touched by an option function / the initialiser" % m.get("rec"))
+                    else:
+                        ctx.fail(r, f, "%s.ttl used outside the option functions" % m.get("rec"), s_.line,
+                                 "%s reads the hop limit of a requester-side raw socket at line %s: replies (responses) travelling "
+                                 "back along their backtrace are not subject to the hop limit -- counting them drops the answers "
+                                 "to requests that were admitted at the limit" % (f.name, s_.line))
+    if n < 4:
+        raise AnalysisBroken("only %d accesses to the requester-side ttl fields found" % n)
+
+
 def run(ctx):
     ctx.guard(rule_r1)
     ctx.guard(rule_r2)
     ctx.guard(rule_r3)
     ctx.guard(rule_r4)
     ctx.guard(rule_r6)
+    ctx.guard(rule_r8)
     ctx.guard(c04.rule_r6)
     for rr in ctx.rules:
         if rr.id.startswith("C04."):
